@@ -197,6 +197,26 @@ def run(prog, rep):
                             for k in calls[0].keywords):
         rep.violation('R2', loc(mod, fj), 'JSONField.from_json', 'does not decode forgivingly',
                       'from_json must pass forgiving=True so that unknown keys are tolerated')
+    # an unknown key must be skipped whatever its value: either from_json hands _set_fields only the keys the new object
+    # has (membership in <object>.__dict__), or no _set_fields checks a value (assert / raise) before it has probed the field
+    filters_keys = any(isinstance(n, ast.Compare) and isinstance(n.ops[0], (ast.In, ast.NotIn)) and isinstance(n.comparators[0], ast.Attribute) and
+                       n.comparators[0].attr == '__dict__' for n in ast.walk(fj))
+    rep.instance('R2', f'JSONField.from_json: decoded keys restricted to the fields of the new object: {filters_keys}')
+    if not filters_keys:
+        for c in [x for x in prog.class_by_simple_all() if x.is_subclass_of(jf)] if hasattr(prog, 'class_by_simple_all') else \
+                [x for xs in prog.class_by_simple.values() for x in xs if x.is_subclass_of(jf)]:
+            sf_ = c.methods.get('_set_fields')
+            if sf_ is None or c is jf:
+                continue
+            for l_ in [n for n in walk_no_nested(sf_) if isinstance(n, ast.For)]:
+                probe_line = min([x.lineno for x in ast.walk(l_) if isinstance(x, ast.Call) and call_name(x) in ('__getattribute__', 'getattr', 'hasattr')] or [10 ** 9])
+                early = [x for x in ast.walk(l_) if isinstance(x, (ast.Assert, ast.Raise)) and x.lineno < probe_line]
+                if early:
+                    rep.violation('R2', loc(c.module, early[0]), f'{c.name}._set_fields', f'{norm(early[0], 60)} before the field is known to exist',
+                                  f'{c.name}._set_fields checks the value (`{norm(early[0], 50)}`) before it knows that the key names a field: decoding a text '
+                                  f'with an unknown key whose value has another type (a number, true, null, an object) raises instead of '
+                                  f'skipping the key, although from_json promises forward compatibility')
+                    break
     fji = inline(prog, jf, fj)
     fparams = [p for p in func_params(fji) if p != 'cls']
     fenv = local_env(fji)
@@ -222,6 +242,52 @@ def run(prog, rep):
     if not empty_ret or not empty_test:
         rep.violation('R2', loc(mod, tj), 'JSONField.to_json', 'empty value convention',
                       'a value with nothing set must encode as empty text and empty text decode as absent')
+
+    # a codec that wraps another decoder passes "absent" through: Cls(Other.from_json(text)) is an object even when the
+    # inner decoder reads the text as absent (None)
+    rep.rule('R9', 'a decoder that wraps another decoder returns None when the inner one reads the text as absent', floor=1)
+    for m_ in prog.modules.values():
+        if not m_.name.startswith('fim.slivers'):
+            continue
+        for c_ in m_.classes.values():
+            f_ = c_.methods.get('from_json')
+            if f_ is None:
+                continue
+            for r_ in [x for x in walk_no_nested(f_) if isinstance(x, ast.Return) and isinstance(x.value, ast.Call)]:
+                inner = [a for a in r_.value.args if isinstance(a, ast.Call) and call_name(a) == 'from_json']
+                if not inner or not (isinstance(r_.value.func, ast.Name) and (r_.value.func.id == c_.simple or r_.value.func.id == 'cls')):
+                    continue
+                rep.instance('R9', f'{c_.name}.from_json wraps {norm(inner[0], 50)}')
+                rep.violation('R9', loc(m_, r_), f'{c_.name}.from_json', f'{norm(r_, 70)}',
+                              f'{c_.name}.from_json wraps whatever {norm(inner[0].func, 40)} returns, also None: an absent (or unset) value reads '
+                              f'back as an empty {c_.name} object instead of as absent, and re-encodes differently from what was stored')
+            # the guarded form counts as an instance too
+            for a_ in [x for x in walk_no_nested(f_) if isinstance(x, ast.Assign) and isinstance(x.value, ast.Call) and call_name(x.value) == 'from_json']:
+                rep.instance('R9', f'{c_.name}.from_json decodes through {norm(a_.value.func, 40)} into a local (tested before wrapping)')
+
+    # decoders that expand a decoded dictionary into a constructor (Cls(**entry)): a key the constructor does not know raises
+    # TypeError unless the constructor takes **kwargs or the entry is restricted to the known fields first
+    for m_ in prog.modules.values():
+        if not m_.name.startswith('fim.slivers'):
+            continue
+        for c_ in m_.classes.values():
+            f_ = c_.methods.get('from_json')
+            if f_ is None or not any(isinstance(x, ast.Call) and call_name(x) == 'loads' for x in ast.walk(f_)):
+                continue
+            for call in [x for x in ast.walk(f_) if isinstance(x, ast.Call) and isinstance(x.func, ast.Name) and
+                         any(k.arg is None for k in x.keywords)]:
+                tgt = prog.resolve_class_expr(call.func, m_) if hasattr(prog, 'resolve_class_expr') else None
+                if tgt is None or '__init__' not in tgt.methods:
+                    continue
+                init_ = tgt.methods['__init__']
+                star = [k.value for k in call.keywords if k.arg is None][0]
+                restricted = isinstance(star, ast.DictComp) and any(isinstance(i_, ast.Compare) and isinstance(i_.ops[0], ast.In) for g_ in star.generators for i_ in g_.ifs)
+                okk = init_.args.kwarg is not None or restricted
+                rep.instance('R2', f'{c_.name}.from_json: {norm(call, 60)} (unknown keys tolerated: {okk})')
+                if not okk:
+                    rep.violation('R2', loc(m_, call), f'{c_.name}.from_json', f'{norm(call, 60)}',
+                                  f'{c_.name}.from_json expands every decoded entry into {tgt.name}(...): an entry that carries a field this version '
+                                  f'does not know raises TypeError, so the whole value cannot be decoded (no forward compatibility)')
 
     # ---- R3 ----
     upd = jf.methods.get('update')
@@ -444,6 +510,10 @@ def _truthiness_uses(test, name):
 CL = 'fim/slivers/capacities_labels.py'
 MM = 'fim/slivers/maintenance_mode.py'
 MUTANTS = [
+    {'name': 'unknown-keys-reach-the-setters', 'file': 'fim/slivers/capacities_labels.py', 'rule': 'R2',
+     'find': "        for k in [k for k in d if k not in ret.__dict__]:\n", 'replace': "        for k in []:\n"},
+    {'name': 'gateway-wraps-absent', 'file': 'fim/slivers/gateway.py', 'rule': 'R9',
+     'find': "        return Gateway(lab) if lab is not None else None\n", 'replace': "        return Gateway(Labels.from_json(json_string))\n"},
     {'name': 'location-override-removed', 'file': CL, 'rule': 'R1',
      'find': '    def to_dict(self) -> Dict[str, str] or None:\n        """\n        Convert to a dictionary skipping unset fields. Specialized', 'replace': '    def to_dict_unused(self) -> Dict[str, str] or None:\n        """\n        Convert to a dictionary skipping unset fields. Specialized'},
     {'name': 'forgiving-branch-returns', 'file': CL, 'rule': 'R2', 'count': 1,
